@@ -50,10 +50,12 @@ def gen_world(rng, nmin=3, nmax=20, na_rate=0.0, na_cols=(), ordered_prob=0.5, f
             rng.shuffle(decl)
             data[name] = pd.Categorical(vals, categories=[names[c - 1] for c in decl], ordered=True)
         else:
-            style = rng.choice(["obj", "cat"])
+            style = rng.choice(["obj", "cat", "string"])
             if style == "cat":
                 present = sorted(set(vals), reverse=True)
                 data[name] = pd.Categorical(vals, categories=present, ordered=False)
+            elif style == "string":
+                data[name] = pd.array(vals, dtype="string")   # pandas' own string dtype
             else:
                 data[name] = np.array(vals, dtype=object)
         w.cols[name] = {"kind": "cat", "v": codes, "decl": decl}
@@ -71,7 +73,11 @@ def gen_world(rng, nmin=3, nmax=20, na_rate=0.0, na_cols=(), ordered_prob=0.5, f
             data[name] = np.array(v, dtype=float) / 4.0
             w.scale[name] = 4
         else:
-            data[name] = np.array(v, dtype=np.int64)
+            # how the integers are stored must not matter: int64, float64, pandas' nullable Int64
+            st = rng.choice(["int64", "int64", "float", "Int64"]) if name in ("w", "u1", "z") else "int64"
+            if st == "Int64" and name == "z":
+                st = "float"
+            data[name] = pd.array(v, dtype="Int64") if st == "Int64" else np.array(v, dtype=np.int64 if st == "int64" else float)
         w.cols[name] = {"kind": "num", "v": v, "decl": []}
 
     cat("f", rng.randint(2, 4))
@@ -79,6 +85,16 @@ def gen_world(rng, nmin=3, nmax=20, na_rate=0.0, na_cols=(), ordered_prob=0.5, f
     cat("h", rng.randint(2, 4))
     cat("o", rng.randint(2, 4), ordered=rng.random() < ordered_prob)
     cat("u2", 2)
+    # an ordered categorical one of whose declared categories never occurs (a frame left over after filtering);
+    # it has no abstract column: only the row-relation checks (C06, C08) use it, through ou, C(ou), S(ou), T(ou)
+    ou_decl = ["lo", "mid", "hi", "top"]
+    rng.shuffle(ou_decl)
+    ou_used = ou_decl[:]
+    ou_used.remove(rng.choice(ou_decl))
+    ou_vals = [rng.choice(ou_used) for _ in range(n)]
+    for k, pos in enumerate(rng.sample(range(n), min(n, len(ou_used)))):
+        ou_vals[pos] = ou_used[k]
+    data["ou"] = pd.Categorical(ou_vals, categories=ou_decl, ordered=True)
     num("x", -3, 6)
     num("z", 1, 5)
     # a column whose training mean is exactly zero (memoised parameters that are 0 must stay memoised)
@@ -102,6 +118,9 @@ def gen_world(rng, nmin=3, nmax=20, na_rate=0.0, na_cols=(), ordered_prob=0.5, f
     ks = sorted(set(kv))
     w.cols["C(k)"] = {"kind": "cat", "v": [ks.index(v) + 1 for v in kv], "decl": []}
     w.names["C(k)"] = [str(v) for v in ks]
+    # k itself used as a grouping variable, (e | k): its groups are the values of k in numeric order
+    w.cols["k#grp"] = {"kind": "cat", "v": [ks.index(v) + 1 for v in kv], "decl": []}
+    w.names["k#grp"] = [str(v) for v in ks]
     # explicit level order taken from the caller's namespace (KL = the values of k, descending)
     w.cols["C(k, levels=KL)"] = {"kind": "cat", "v": [ks.index(v) + 1 for v in kv], "decl": list(range(len(ks), 0, -1))}
     w.names["C(k, levels=KL)"] = [str(v) for v in ks]
@@ -148,7 +167,7 @@ def _fk(a, k=0):
     return a + 2 * k
 
 
-DERIVED = {"fk(z, k=w)": ["z", "w"], "fk(np.abs(z), k=I(`b q`))": ["z", "b q"], "`b q`": ["b q"], "C(k)": ["k"], "C(k, levels=KL)": ["k"], "I(h)": ["h"], "S(h)": ["h"], "C(g, Sum)": ["g"], "I(x * 2)": ["x"], "np.abs(x)": ["x"], "I(z + w)": ["z", "w"]}
+DERIVED = {"k#grp": ["k"], "fk(z, k=w)": ["z", "w"], "fk(np.abs(z), k=I(`b q`))": ["z", "b q"], "`b q`": ["b q"], "C(k)": ["k"], "C(k, levels=KL)": ["k"], "I(h)": ["h"], "S(h)": ["h"], "C(g, Sum)": ["g"], "I(x * 2)": ["x"], "np.abs(x)": ["x"], "I(z + w)": ["z", "w"]}
 
 
 def _set_na(w, df, c, r):
@@ -165,8 +184,14 @@ def _set_na(w, df, c, r):
             df[c] = s
     else:
         col["v"][r] = NA
-        df[c] = df[c].astype(float)
-        df.iloc[r, df.columns.get_loc(c)] = np.nan
+        if str(df[c].dtype) == "Int64":
+            # pandas' nullable integers hold their own missing-value marker
+            sr = df[c].copy()
+            sr.iloc[r] = pd.NA
+            df[c] = sr
+        else:
+            df[c] = df[c].astype(float)
+            df.iloc[r, df.columns.get_loc(c)] = np.nan
     for dname, srcs in DERIVED.items():
         if c in srcs:
             w.cols[dname]["v"][r] = 0 if w.cols[dname]["kind"] == "cat" else NA
@@ -242,7 +267,7 @@ def gen_formula(rng, groups=True, max_terms=4, resp="y", cat_comps=None, num_com
     gterms = []
     if groups and rng.random() < 0.6:
         for _ in range(rng.randint(1, 2)):
-            fac = rng.choice([["g"], ["h"], ["f"], ["g", "h"], ["C(k)"]])
+            fac = rng.choice([["g"], ["h"], ["f"], ["g", "h"], ["C(k)"], ["k"]])
             eff = rng.choice([[], ["x"], ["z"], ["f"], ["o"], ["x", "f"], ["I(x * 2)"]])
             eff = [e for e in eff if e not in fac]
             noint = bool(eff) and rng.random() < 0.35
@@ -299,6 +324,8 @@ def parse_piece(s, w):
             break
     if s in w.cols and w.cols[s]["kind"] == "num":
         return [s, 0]
+    if s.startswith("k[") and "k#grp" in w.names:
+        s = "k#grp" + s[1:]   # a numeric grouping variable: its groups are the values of k
     best = None
     for name in w.names:
         if s.startswith(name + "[") and s.endswith("]"):
@@ -307,10 +334,14 @@ def parse_piece(s, w):
     if best is None:
         raise ValueError(f"cannot parse label piece {s!r}")
     lvl = s[len(best) + 1 : -1]
+    if lvl not in w.names[best] and lvl.endswith(".0") and lvl[:-2] in w.names[best]:
+        lvl = lvl[:-2]
     if best in w.sum_cols:
         if lvl == "mean":
             return [best, 0, "sum", w.sum_cols[best]]
         return [best, w.names[best].index(lvl) + 1, "sum", w.sum_cols[best]]
+    if lvl not in w.names[best] and lvl.endswith(".0") and lvl[:-2] in w.names[best]:
+        lvl = lvl[:-2]   # an integer column that held a missing value is stored as float: level 3 is printed '3.0'
     if lvl not in w.names[best]:
         raise ValueError(f"unknown level {lvl!r} in {s!r}")
     return [best, w.names[best].index(lvl) + 1]
